@@ -9,7 +9,7 @@ from vlib import engine, formats, gen, kal, present, runner
 ID = "C16"
 RULE = ("A program is built from 3..6 units over a small pool of generated inputs/configurations: (A) kalign() call; (F) "
         "kalign_read_input of 1..3 files (any readable format) -> kalign_run -> dump -> kalign_write_msa in 1..3 formats -> "
-        "kalign_free_msa (a quarter of these align the object twice - the second result must equal the first - and some try to write before aligning, which must fail cleanly); (C) two alignments read into two objects -> kalign_msa_compare -> free both; (R) a run that must be "
+        "kalign_free_msa (a quarter of these align the object twice - the second result must equal the first - and some try to write before aligning, which must fail cleanly; a fifth call kalign_check_msa / reformat_settings_msa in between); (C) two alignments read into two objects -> kalign_msa_compare -> free both; (R) a run that must be "
         "rejected (type/kind mismatch) -> free. The steps of all units are interleaved by a drawn merge order (several msa "
         "objects alive at once) with 'scribble' steps (malloc/fill/free of drawn sizes and byte patterns: the application's own "
         "heap traffic) in between; validity by construction. The whole program runs in one ASan+UBSan+LSan probe process. "
@@ -110,6 +110,9 @@ def unit(draw, pool):
         # aligning the same object a second time must give the first result again; writing before aligning must fail cleanly
         u["rerun"] = draw(st.integers(0, 3)) == 0
         u["early_write"] = draw(st.integers(0, 5)) == 0
+        # the remaining public calls on an msa object (duplicate-name check, rename / un-align), before aligning
+        u["pre"] = draw(st.lists(st.sampled_from(["checkmsa %d 0", "checkmsa %d 1", "reformat %d 0 0", "reformat %d 1 0", "reformat %d 0 1", "reformat %d 1 1"]),
+                                 min_size=1, max_size=2)) if draw(st.integers(0, 4)) == 0 else []
     elif kind == "C":
         u["seed1"] = draw(st.integers(0, 9999))
         u["seed2"] = draw(st.integers(0, 9999))
@@ -163,6 +166,9 @@ def unit_steps(u, pool, wd, slot0):
         if u.get("early_write"):
             lines.append("write %d fasta %s" % (slot0, wd.path(".early")))
             keys.append((len(lines) - 1, "early_write_rc"))
+        for pre in (u.get("pre") or []) if u["kind"] == "F" else []:
+            lines.append(pre % slot0)
+            keys.append((len(lines) - 1, "rc"))
         lines.append("run %d %s" % (slot0, kal.cfg_args(u["cfg"])))
         keys.append((len(lines) - 1, "rc"))
         lines.append("dump %d" % slot0)
